@@ -186,7 +186,19 @@ func (ex *Exec) registerIntrinsics() {
 	}
 	I[T+"vUF1"] = func(ex *Exec, fr *frame, a []V) V {
 		x := a[1].(*Term)
-		return ts.UF("uf_"+sanitize(ex.str(a[0]))+"_"+sortTag(x.Sort), x.Sort, x)
+		u := ts.UF("uf_"+sanitize(ex.str(a[0]))+"_"+sortTag(x.Sort), x.Sort, x)
+		if u.Op == OUF && len(ex.path.ufApps) < 64 {
+			dup := false
+			for _, o := range ex.path.ufApps {
+				if o == u {
+					dup = true
+				}
+			}
+			if !dup {
+				ex.path.ufApps = append(ex.path.ufApps, u)
+			}
+		}
+		return u
 	}
 	I[T+"vUF2"] = func(ex *Exec, fr *frame, a []V) V {
 		x, y := a[1].(*Term), a[2].(*Term)
